@@ -235,6 +235,13 @@ def mlr_args(s):
 JOINED_KEYS = [False]     # True only while asking "is the difference explained by the comma-joined grouping key alone?"
 
 
+def gkey(d, gs):
+    """group key of a record (dict) in the oracles that keep their own per-group state: the tuple of texts; the comma-joined text only
+    while classify_witness asks whether the joined key alone explains a difference (same switch as groups_of)"""
+    k = tuple(d[g] for g in gs)
+    return ",".join(k) if JOINED_KEYS[0] else k
+
+
 def groups_of(recs, gs):
     """first-appearance-ordered groups keyed by the TUPLE of exact group-by texts; records lacking a field are left out.
     Returns [(texts of the first member, members)]."""
@@ -461,7 +468,7 @@ def oracle(s, recs, rows):
         for r in recs:
             d = dict(r)
             if all(g in d for g in s["gs"]):
-                key = tuple(d[g] for g in s["gs"])
+                key = gkey(d, s["gs"])
                 for f in s["fs"]:
                     if f in d:
                         sums[(key, f)] = sums.get((key, f), 0) + numq(d[f])
@@ -469,7 +476,7 @@ def oracle(s, recs, rows):
             d = dict(r)
             e = [(kk, ("text", vv)) for kk, vv in r]
             if all(g in d for g in s["gs"]):
-                key = tuple(d[g] for g in s["gs"])
+                key = gkey(d, s["gs"])
                 for f in s["fs"]:
                     if f in d:
                         num = numq(d[f]) + (cum.get((key, f), 0) if s["c"] else 0)
@@ -499,7 +506,7 @@ def oracle(s, recs, rows):
         for r in recs:
             d = dict(r)
             if all(g in d for g in s["gs"]):
-                key = tuple(d[g] for g in s["gs"])
+                key = gkey(d, s["gs"])
                 members.setdefault(key, []).append(r)
                 where.append((key, len(members[key]) - 1))
             else:
@@ -647,7 +654,7 @@ def oracle(s, recs, rows):
                 d = dict(r)
                 if any(g not in d for g in s["gs"]):
                     continue
-                key = tuple(d[g] for g in s["gs"])
+                key = gkey(d, s["gs"])
                 hist.setdefault(key, []).append(r)
                 e = [(kk, ("text", vv)) for kk, vv in r]
                 # field order: fields ever seen in this group (not only in the window) keep their slot
@@ -971,8 +978,7 @@ def oracle_ext(s, recs, rows):
         for r in recs:
             d = dict(r)
             if all(g in d for g in s["gs"]):
-                key = tuple(d[g] for g in s["gs"])
-                key = ",".join(key) if JOINED_KEYS[0] else key
+                key = gkey(d, s["gs"])
                 members.setdefault(key, []).append(r)
                 where.append((key, len(members[key]) - 1))
             else:
